@@ -46,7 +46,14 @@ func genC06(t *rapid.T) *Case {
 		// AllowUnsafe only concerns script and style, of which the inputs here are free
 		spec.Ops = append(spec.Ops, Op{Kind: "AllowUnsafe", B: true, ValRe: -1})
 	}
-	els := []string{"textarea", "title", "xmp", "b", "i", "p", "pre", "listing", "img", "input", "hr", "link"}
+	if rapid.IntRange(0, 5).Draw(t, "voidSkip") == 0 {
+		// void elements have no content: naming them (in any letter case) in the skip set must not
+		// open a skipped region, so inputs that use them stay inside the property's input class
+		spec.Ops = append(spec.Ops, Op{Kind: "SkipElementsContent", ValRe: -1,
+			Names: subset(t, []string{"BR", "Img", "HR", "Input", "LINK", "br", "img", "hr", "Embed"}, 1, 3, "voidSkipName")})
+		m = BuildModel(spec)
+	}
+	els := []string{"textarea", "title", "xmp", "b", "i", "p", "pre", "listing", "img", "input", "hr", "link", "br"}
 	in := genSoup(t, m, &soupOpts{els: els})
 	if rapid.IntRange(0, 5).Draw(t, "corpusInput") == 0 {
 		in = genCorpusMutation(t)
@@ -216,7 +223,8 @@ func checkC06(c *Case, r *Rec) error {
 	removedTag, entity, rawSection := false, strings.Contains(in, "&"), false
 	for _, t := range inToks {
 		if isTag(t) {
-			if t.Name == "script" || t.Name == "style" || m.skip[t.Name] {
+			if t.Name == "script" || t.Name == "style" || (m.skip[t.Name] && !voidEls[t.Name]) {
+				// (a void element has no content that could be skipped)
 				fullClass = false
 			}
 			if rawTextEls[t.Name] {
